@@ -5,6 +5,7 @@ import logging
 import random
 import threading
 import types
+import queue as _real_queue
 
 from ..core import lean
 from ..core.baton import Sched, BLoop
@@ -38,6 +39,14 @@ RULE = ('sources of length 0..6 (generator, iterator, list, range; async generat
         'thread alive, loop responsiveness; distinct = distinct (bridge, source, schedule)')
 
 TABLE = [None, 0, '', False, [], 0.0, 1, 'x', (), 2]
+
+
+class QuietBoom(Exception):
+    """An exception whose truth value is false (it has a length): `if exc:` and concurrent.futures' `result()` take
+    it for "no exception"."""
+
+    def __len__(self):
+        return 0
 
 
 class Boom(Exception):
@@ -98,10 +107,13 @@ class CoopExecutor:
             E.S.point('pool.join', enabled=lambda: all(not E.S.threads[w]['alive'] for w in self.mine))
 
 
-class CoopQueue:
-    """queue.Queue for to_sync_iter."""
+_MISSING = object()
 
-    def __init__(self):
+
+class CoopQueue:
+    """queue.Queue / queue.SimpleQueue for to_sync_iter (unbounded; the operations a hand-off channel needs)."""
+
+    def __init__(self, maxsize=0):
         self.items = []
 
     def put_nowait(self, x):
@@ -111,14 +123,43 @@ class CoopQueue:
         self.items.append(x)
         E.labels.append('pd' if x is A._DONE else 'p:%d' % ident(x))
 
-    def get(self):
+    def put(self, x, block=True, timeout=None):
+        self.put_nowait(x)
+
+    def get(self, block=True, timeout=None):
         E = ENV
-        E.S.point('queue.get', enabled=lambda: bool(self.items))
+        if not block:
+            return self.get_nowait()
+        E.S.point('queue.get', enabled=lambda: bool(self.items),
+                  deadline=None if timeout is None else E.S.vt + timeout)
+        if not self.items:
+            raise _real_queue.Empty
         return self.items.pop(0)
+
+    def get_nowait(self):
+        ENV.S.point('queue.get_nowait')
+        if not self.items:
+            raise _real_queue.Empty
+        return self.items.pop(0)
+
+    def empty(self):
+        return not self.items
+
+    def qsize(self):
+        return len(self.items)
+
+    def task_done(self):
+        pass
 
 
 class QueueProxy(types.ModuleType):
+    """Stands in for the `queue` module inside aiuti.asyncio: its FIFO classes are the cooperative one, everything
+    else (Empty, Full, ...) is the real thing."""
     Queue = CoopQueue
+    SimpleQueue = CoopQueue
+
+    def __getattr__(self, n):
+        return getattr(_real_queue, n)
 
 
 def ident(x):
@@ -132,7 +173,9 @@ class BridgeLoop(BLoop):
     def call_soon_threadsafe(self, cb, *args, **kw):
         E = ENV
         import aiuti.asyncio as A
-        if threading.current_thread().name.startswith('W') and args and getattr(cb, '__name__', '') == 'put_nowait':
+        if threading.current_thread().name.startswith('W') and args and (
+                getattr(cb, '__name__', '') in ('put_nowait', 'put')
+                or isinstance(getattr(cb, '__self__', None), asyncio.Queue)):
             E.S.point('call_soon_threadsafe')
             E.labels.append('pd' if args[0] is A._DONE else 'p:%d' % ident(args[0]))
         return super().call_soon_threadsafe(cb, *args, **kw)
@@ -163,6 +206,8 @@ def gen_case(rng):
         delays = [0] * (n + 1)
     cons_delay = rng.choice([0, 0, 2])
     case = {'kind': kind, 'ids': ids, 'fail': fail, 'delays': delays, 'cons_delay': cons_delay}
+    if fail is not None and rng.random() < 0.3:
+        case['falsy'] = True        # the source fails with an exception whose truth value is false
     if kind == 'async:gen' and n >= 2 and fail is None and rng.random() < 0.3:
         # the consumer stops early: it takes k elements and closes the async iterator while the source still has
         # (blocking) steps to go
@@ -181,12 +226,23 @@ def run_case(case, seed, pct=0, choices=None):
     S = Sched(seed, choices=choices, pct_depth=pct, max_steps=6000)
     E = Env(S)
     ENV = E
-    saved = (A.ThreadPoolExecutor, A.queue, A.aio)
-    A.ThreadPoolExecutor = CoopExecutor
-    A.queue = QueueProxy('queue')
-    A.aio = AioProxy('asyncio')
+    # whatever the module imports for its thread pool / hand-off queue / asyncio is replaced by the cooperative versions,
+    # under whichever of the usual names it is imported (a name a rewrite no longer imports is simply not there)
+    want = {'ThreadPoolExecutor': CoopExecutor, 'queue': QueueProxy('queue'), 'aio': AioProxy('asyncio'),
+            'asyncio': AioProxy('asyncio'), 'Queue': CoopQueue, 'SimpleQueue': CoopQueue}
+    saved = {}
+    for name, repl in want.items():
+        cur = getattr(A, name, _MISSING)
+        if cur is _MISSING:
+            continue
+        if name in ('Queue', 'SimpleQueue') and cur not in (_real_queue.Queue, _real_queue.SimpleQueue):
+            continue
+        if name == 'asyncio' and cur is not asyncio:
+            continue
+        saved[name] = cur
+        setattr(A, name, repl)
     ids, fail, delays = case['ids'], case['fail'], case['delays']
-    boom = Boom('source failed')
+    boom = (QuietBoom if case.get('falsy') else Boom)('source failed')
     res = {'got': [], 'end': 'missing', 'ticks': 0}
 
     def pause(d):
@@ -262,7 +318,7 @@ def run_case(case, seed, pct=0, choices=None):
                             if case['cons_delay']:
                                 await asyncio.sleep(case['cons_delay'])
                         finish(None)
-                    except Boom as e:
+                    except (Boom, QuietBoom) as e:
                         finish(e)
                     t.cancel()
                 try:
@@ -280,7 +336,7 @@ def run_case(case, seed, pct=0, choices=None):
                         E.labels.append('g:%d' % ident(x))
                         pause(case['cons_delay'])
                     finish(None)
-                except Boom as e:
+                except (Boom, QuietBoom) as e:
                     finish(e)
                 if own is not None:
                     # second round on the same loop (monitor only: the label trace describes the first round)
@@ -303,7 +359,8 @@ def run_case(case, seed, pct=0, choices=None):
             S.spawn('C', body)
         S.run(wall_timeout=20)
     finally:
-        A.ThreadPoolExecutor, A.queue, A.aio = saved
+        for name, cur in saved.items():
+            setattr(A, name, cur)
     res.update(labels=E.labels, hung=S.hung, errors=S.errors, trace=S.trace, vt=S.vt,
                workers_alive=[w for w in E.workers if S.threads[w]['alive']], nworkers=len(E.workers))
     return res
